@@ -3311,10 +3311,14 @@ class TLSConnection(TLSRecordLayer):
 
             signature_scheme = certificate_verify.signatureAlgorithm
 
+            # the scheme must be one we asked for in CertificateRequest and
+            # one usable with the key in client's certificate
+            offered_sig_algs = certificate_request.supported_signature_algs
             valid_sig_algs = self._sigHashesToList(settings,
                                                    certList=client_cert_chain,
                                                    version=(3, 4))
-            if signature_scheme not in valid_sig_algs:
+            if signature_scheme not in valid_sig_algs or \
+                    signature_scheme not in offered_sig_algs:
                 for result in self._sendError(
                         AlertDescription.illegal_parameter,
                         "Invalid signature on Certificate Verify"):
